@@ -209,6 +209,80 @@ fn perm_line(rng: &mut SplitMix64) -> (String, String)
     (req, ans)
 }
 
+/// Clifford COMBINATORS on basis states, stabilizer representation: Composite / Loop gates (bare, or under a fulfilled
+/// classical condition) whose sub-gates X, Y, CX, CY, CZ, Swap sit on their qubits in EVERY operand order (adjacent
+/// descending `CX 1 0`, `CY 2 1`, ...).  Every qubit stays in a basis state, so the only register value of non-zero
+/// probability is computed here with boolean arithmetic, independently of the library and of the Lean reference.
+fn cperm_line(rng: &mut SplitMix64) -> (String, String)
+{
+    let nq = 2 + rng.below(4) as usize;
+    let mut val = vec![false; nq];
+    let mut ops: Vec<String> = vec![];
+    for q in 0..nq { if rng.coin() { ops.push(format!("gate 1 {} X", q)); val[q] = true; } }
+    // classical bit nq: always 1 (for the conditional variants)
+    let cq = rng.below(nq as u64) as usize;
+    let flip_back = !val[cq];
+    if flip_back { ops.push(format!("gate 1 {} X", cq)); }
+    ops.push(format!("measure {} {} Z", cq, nq));
+    if flip_back { ops.push(format!("gate 1 {} X", cq)); }
+    for _ in 0..(1 + rng.below(3))
+    {
+        let nb = 2 + rng.below((nq - 1).min(3) as u64) as usize;
+        let mut bits: Vec<usize> = (0..nq).collect(); rng.shuffle(&mut bits); bits.truncate(nb);
+        let k = 1 + rng.below(4) as usize;
+        let mut body = format!("{}", k);
+        let mut subs: Vec<(&str, Vec<usize>)> = vec![];
+        for _ in 0..k
+        {
+            let g = *rng.pick(&["X", "Y", "CX", "CX", "CY", "CY", "CZ", "Swap"]);
+            let m = if g == "X" || g == "Y" { 1 } else { 2 };
+            let mut lb: Vec<usize> = (0..nb).collect(); rng.shuffle(&mut lb); lb.truncate(m);
+            // mostly ADJACENT operands (ascending and descending)
+            if m == 2 && rng.below(3) != 0 { let a = rng.below(nb as u64 - 1) as usize; lb = if rng.coin() { vec![a + 1, a] } else { vec![a, a + 1] }; }
+            body += &format!(" {} {} {}", g, m, join(&lb));
+            subs.push((g, lb));
+        }
+        let iters = if rng.below(3) == 0 { Some(rng.below(4) as usize) } else { None };
+        let term = match iters { Some(it) => format!("Loop l{} {} b{} {} {}", rng.below(10), it, rng.below(10), nb, body), None => format!("Comp g{} {} {}", rng.below(10), nb, body) };
+        if rng.below(3) == 0 { ops.push(format!("cond 1 {} 1 {} {} {}", nq, nb, join(&bits), term)); } else { ops.push(format!("gate {} {} {}", nb, join(&bits), term)); }
+        for _ in 0..iters.unwrap_or(1)
+        {
+            for (g, lb) in subs.iter()
+            {
+                let q0 = bits[lb[0]];
+                match *g
+                {
+                    "X" | "Y" => val[q0] = !val[q0],
+                    "CX" | "CY" => { let q1 = bits[lb[1]]; if val[q0] { val[q1] = !val[q1]; } },
+                    "Swap" => { let q1 = bits[lb[1]]; val.swap(q0, q1); },
+                    _ => {}
+                }
+            }
+        }
+    }
+    let mut expect = 1u64 << nq;
+    for q in 0..nq { ops.push(format!("measure {} {} Z", q, q)); if val[q] { expect |= 1 << q; } }
+    let ct = CircuitText { nq, nc: nq + 1, ops };
+    let (shots, seed) = (4, rng.next());
+    let repr = *rng.pick(&["stabilizer", "stabilizer", "auto", "vector"]);
+    let req = format!("cperm | {} | {} | {} | {} | {}", repr, nq, shots, seed, ct.ops.join(" ; "));
+    let ans = match build(&ct)
+    {
+        Err(e) => format!("build-{}", show_err(&e)),
+        Ok(mut circuit) => {
+            let run = execute_traced(&mut circuit, nq, shots, seed, repr);
+            match (&run.result, &run.final_cstate)
+            {
+                (Some(Ok(())), Some(cs)) => if cs.iter().all(|w| *w == expect) { "same".to_string() }
+                    else { format!("differs only-possible-value={} register={}", expect, join(cs)) },
+                (Some(Err(e)), _) => show_err(e),
+                _ => "panic".to_string()
+            }
+        }
+    };
+    (req, ans)
+}
+
 /// `reps` independent executions with `n` shots each: distribution of the sorted register
 fn tuples_line(ct: &CircuitText, n: usize, reps: usize, seed0: u64, repr: &str) -> Option<(String, String)>
 {
@@ -372,6 +446,28 @@ fn main()
         if let Some((r, a)) = hist_line(&ct, shots, seed, ["vector", "auto"][i % 2]) { out.case(&r, &a); }
     }
     for _ in 0..(if thorough() { 400 } else { 80 }) { let (r, a) = perm_line(&mut rng); out.case(&r, &a); }
+    // Clifford combinators (Composite / Loop with sub-gates in every operand order) on basis states, stabilizer representation
+    for _ in 0..(if thorough() { 1500 } else { 300 }) { let (r, a) = cperm_line(&mut rng); out.case(&r, &a); }
+    // ... and on superposed / entangled states: statistics on all three representation choices
+    for i in 0..(if thorough() { 150 } else { 40 })
+    {
+        let nq = 2 + rng.below(3) as usize;
+        let mut ops: Vec<String> = vec![];
+        for q in 0..nq { match rng.below(3) { 0 => ops.push(format!("gate 1 {} H", q)), 1 => ops.push(format!("gate 1 {} X", q)), _ => {} } }
+        for _ in 0..(1 + rng.below(3))
+        {
+            let k = 2 + rng.below((nq - 1).min(2) as u64) as usize;
+            let mut bits: Vec<usize> = (0..nq).collect(); rng.shuffle(&mut bits); bits.truncate(k);
+            let mut term = gen_clifford_term(k, 2, &mut rng);
+            while !(term.starts_with("Comp") || term.starts_with("Loop") || term.starts_with("Kron")) { term = gen_clifford_term(k, 2, &mut rng); }
+            ops.push(format!("gate {} {} {}", k, join(&bits), term));
+            if rng.below(3) == 0 { let q = rng.below(nq as u64) as usize; ops.push(format!("measure {} {} {}", q, q, gen_basis(&mut rng))); }
+        }
+        for q in 0..nq { ops.push(format!("measure {} {} {}", q, q, if rng.below(3) == 0 { gen_basis(&mut rng) } else { "Z" })); }
+        let ct = CircuitText { nq, nc: nq, ops };
+        let seed = rng.next();
+        for repr in ["stabilizer", "auto", "vector"].iter() { if i % 2 == 0 || *repr != "vector" { if let Some((r, a)) = hist_line(&ct, shots, seed, repr) { out.case(&r, &a); } } }
+    }
     // wide registers: the only possible register value is known classically
     for _ in 0..(if thorough() { 400 } else { 80 }) { let (r, a) = wide_line(&mut rng); out.case(&r, &a); }
     // witnesses of the known defects (request kind prefixed with `w:<finding>`)
